@@ -22,9 +22,12 @@ import (
 	"time"
 
 	"github.com/prometheus/client_golang/prometheus"
+	"github.com/prometheus/common/promslog"
 
 	"github.com/prometheus/alertmanager/config"
+	"github.com/prometheus/alertmanager/config/receiver"
 	"github.com/prometheus/alertmanager/dispatch"
+	"github.com/prometheus/alertmanager/template"
 
 	hxp "verif/harness/hx"
 )
@@ -140,6 +143,9 @@ func (w *world) cfg(seed uint64, profile string) string {
 	default:
 		c := genTree(r)
 		legacyMix(rand.New(rand.NewPCG(seed, 99)), c)
+		if rn := rand.New(rand.NewPCG(seed, 101)); rn.IntN(8) == 0 {
+			c.nullKind = 1 + rn.IntN(4)
+		}
 		y, desc = c.yaml(), c.encode()
 	}
 	c, class, _ := safeLoad(y)
@@ -184,6 +190,14 @@ func (w *world) cfg(seed uint64, profile string) string {
 	return fmt.Sprintf("%s ok %s %s %s %s %s %s %s %s %s %s", desc, tree, recvs, mutes, tis, strhex, cans, tree2, x1, x2, built)
 }
 
+var applyTmpl = func() *template.Template {
+	t, err := template.FromGlobs(nil)
+	if err != nil {
+		panic(err)
+	}
+	return t
+}()
+
 // treeBuildKeepsText builds the routing tree of c the way applying it does and reports whether Config.String() still is `before`.
 func treeBuildKeepsText(c *config.Config, before string) (res string) {
 	if c.Route == nil {
@@ -195,6 +209,11 @@ func treeBuildKeepsText(c *config.Config, before string) (res string) {
 		}
 	}()
 	dispatch.NewRoute(c.Route, nil)
+	// … and the integrations of every receiver (reloader.reload: receiver.BuildReceiverIntegrations); an error is a rejected
+	// reload, a panic kills the process
+	for _, rc := range c.Receivers {
+		_, _ = receiver.BuildReceiverIntegrations(rc, applyTmpl, promslog.NewNopLogger())
+	}
 	if c.String() == before {
 		return "same"
 	}
